@@ -39,6 +39,10 @@ type ReconnPhase struct {
 
 type ReconnCase struct {
 	Phases []ReconnPhase `json:"phases"`
+	// MTU > 0: the face's MTU is lowered to this value after creation, as faces/update does. It
+	// bounds what the face sends; blocks it receives are still limited by the maximum packet size
+	// only (seeded C11-r7-2: the stream transports dropped received blocks larger than the MTU)
+	MTU int `json:"mtu,omitempty"`
 }
 
 func genReconn(t *rapid.T) ReconnCase {
@@ -56,6 +60,9 @@ func genReconn(t *rapid.T) ReconnCase {
 			p.Cut = rapid.SampledFrom([]int{0, 1, 2, 3, 4, 5, 9, 50, 300, 2999}).Draw(t, "cut")
 		}
 		c.Phases = append(c.Phases, p)
+	}
+	if rapid.IntRange(0, 2).Draw(t, "lowMTU") == 0 {
+		c.MTU = rapid.SampledFrom([]int{64, 200, 1500, 8000}).Draw(t, "mtu")
 	}
 	return c
 }
@@ -121,6 +128,9 @@ func execReconn(c ReconnCase) (res evid.Result) {
 	opt.IsFragmentationEnabled = false
 	ls := face.MakeNDNLPLinkService(tr, opt)
 	ls.Run(nil)
+	if c.MTU > 0 {
+		ls.SetMTU(c.MTU)
+	}
 	// The face is taken down the way a peer does it: an orderly end of the current connection
 	// (the transport then closes itself; calling its Close from outside blocks on its own
 	// channel -- an observation outside the listed properties, NOTES.md)
@@ -194,6 +204,13 @@ func execReconn(c ReconnCase) (res evid.Result) {
 	for i := range want {
 		if !bytes.Equal(want[i], got[i]) {
 			return evid.Result{Err: fmt.Errorf("block %d handed to the link layer differs from the block written%s", i, firstDiff(want, got))}
+		}
+	}
+	if c.MTU > 0 {
+		for _, b := range want {
+			if len(b) > c.MTU {
+				classes["received-blocks-larger-than-the-lowered-face-mtu"] = true
+			}
 		}
 	}
 	res.NonTrivial = classes["connection-broken-inside-a-block"] && len(want) >= 2
